@@ -27,10 +27,10 @@ class ListTrashinfos:
     def list_from_volume_trashdir(self, trashdir_path, volume):
         for trashinfo_path in self.trash_dir_reader.list_trashinfo(
                 trashdir_path):
-            trashinfo = self.file_content_reader.contents_of(trashinfo_path)
             try:
+                trashinfo = self.file_content_reader.contents_of(trashinfo_path)
                 path = parse_path(trashinfo)
-            except ParseError:
+            except (ParseError, IOError, OSError):
                 yield 'unable_to_parse_path', trashinfo_path
             else:
                 complete_path = os.path.join(volume, path)
